@@ -152,8 +152,10 @@ theorem eigen_spectral (L : Laws K) (h0 : (Env.epsilon : K) = 0) (m : Mat K) (hs
       linarith
     obtain ⟨hn1, hn1'⟩ := norm1_eq L ⟨x1 - m.e, m.d⟩ hp1
     obtain ⟨hn2, hn2'⟩ := norm1_eq L ⟨x2 - m.e, m.d⟩ hp2
+    have hev : eigenvalues m = (some x1, some x2) := by
+      simp [eigenvalues, hsq]
     have hE : eigen m = ⟨some x1, some x2, norm1 ⟨x1 - m.e, m.d⟩, norm1 ⟨x2 - m.e, m.d⟩, 2⟩ := by
-      simp [eigen, e1, hsq]
+      simp [eigen, e1, hev]
     rw [hE]
     refine ⟨x1, x2, rfl, rfl, by linarith, hprod, ?_, ?_⟩
     · rw [hn1]
